@@ -1,5 +1,6 @@
 (* C01/C02 driver.
    (journal ID (bucket HEX|-) (xact (post ACCTHEX KIND AMT COST LOT) ...) ...)
+     (post ... LINEHEX): the account and kind are read from the written line by the model
      AMT  = - | (NUM DEN PREC KEYHEX)          KEYHEX = commodity key (symbol, or symbol~{lot}) or -
      COST = - | (u NUM DEN PREC SYMHEX) | (t NUM DEN PREC SYMHEX)
      LOT  = - | (NUM DEN PREC SYMHEX)
@@ -23,7 +24,15 @@ let show_amt (a : amount) =
   Printf.sprintf "%s:%s/%s:%s:%d" (match a.acomm with None -> "" | Some c -> string_of_str c)
     (string_of_z (h_qnum q)) (string_of_z (h_qden q)) (string_of_z a.aprec) (if a.akeep then 1 else 0)
 
-let post_of cp = function
+(* with a 7th field - the posting line as written, after its indentation - the account, its kind and whether an
+   amount follows are what the model of the line reader (Model/PostLine.v) finds in that text *)
+let rec post_of cp = function
+  | L [A "post"; _; A _; amt; cost; lot; A line] ->
+    let ((k, name), rest) = split_post_line (str_of_hex line) in
+    let kind = (match k with KReal -> "R" | KVirtual -> "V" | KBalVirtual -> "B" | KDeferred -> "R") in
+    let acct = A (hex_of_str name) in
+    if has_amount_text rest then post_of cp (L [A "post"; acct; A kind; amt; cost; lot])
+    else post_of cp (L [A "post"; acct; A kind; A "-"; A "-"; A "-"])
   | L [A "post"; acct; A kind; amt; cost; lot] ->
     let a = amt_of false amt in
     let lotp = amt_of true lot in
